@@ -49,6 +49,8 @@ def plan(tier, seed):
         tasks.append(('state', {'authors': list(combo)}))
     for n in range(0, 5):
         tasks.append(('compress', {'n': n}))
+    for n in (1, 2, 3):
+        tasks.append(('notes_batch', {'n': n}))
     return tasks
 
 
@@ -258,10 +260,142 @@ def ob_compress(h, shape):
     h.sample = h.witness()
 
 
-OBLIGATIONS = {'ranges': ob_ranges, 'upsert': ob_upsert, 'state': ob_state, 'compress': ob_compress}
+# ---------------------------------------------------------------------------
+# K3: one note per commit, however the notes tree is laid out
+
+SHAS = ['aa11' + 'a' * 36, 'bb22' + 'b' * 36, 'cc33' + 'c' * 36]
+
+
+def fanout(sha):
+    return sha[:2] + '/' + sha[2:]
+
+
+def apply_fast_import(script, tree):
+    """model of `git fast-import` for the command subset git-ai emits; tree: path -> blob text"""
+    marks = {}
+    i = 0
+    data = bytes(script)
+    n = len(data)
+    cur_mark = None
+    in_commit = False
+
+    def line():
+        nonlocal i
+        j = data.index(b'\n', i)
+        l = data[i:j]
+        i = j + 1
+        return l
+    while i < n:
+        l = line()
+        if l == b'':
+            continue
+        if l == b'blob':
+            cur_mark = None
+            continue
+        if l.startswith(b'mark :'):
+            cur_mark = int(l[6:])
+            continue
+        if l.startswith(b'data '):
+            k = int(l[5:])
+            payload = data[i:i + k]
+            if len(payload) != k:
+                raise Unsupported('fast-import stream: data length runs past the stream')
+            i += k
+            if not in_commit:
+                marks[cur_mark] = payload
+            continue
+        if l.startswith(b'commit '):
+            in_commit = True
+            if l != b'commit refs/notes/ai':
+                raise Unsupported('fast-import stream commits to %r' % l)
+            continue
+        if l.startswith(b'committer ') or l.startswith(b'from '):
+            continue
+        if l.startswith(b'D '):
+            tree.pop(l[2:].decode(), None)
+            continue
+        if l.startswith(b'M 100644 :'):
+            rest = l[len(b'M 100644 :'):]
+            mk, path = rest.split(b' ', 1)
+            if int(mk) not in marks:
+                raise Unsupported('fast-import stream: unknown mark')
+            tree[path.decode()] = marks[int(mk)]
+            continue
+        raise Unsupported('fast-import model: unexpected command %r' % l[:40])
+    return tree
+
+
+def ob_notes_batch(h, shape):
+    P = h.P
+    M = P.M
+    n = shape['n']
+    idx = [h.choice(len(SHAS)) for _ in range(n)]
+    layout = [h.choice(3) for _ in SHAS]      # how git stored the existing note of each commit: none / flat / fan-out
+    tree = {}
+    for s_, l in zip(SHAS, layout):
+        if l == 1:
+            tree[s_] = b'old-' + s_[:4].encode()
+        elif l == 2:
+            tree[fanout(s_)] = b'old-' + s_[:4].encode()
+    has_tip = any(layout)
+    P.state['c05_notes'] = {'tree': tree, 'has_tip': has_tip, 'applied': 0}
+    entries = [(SHAS[k], 'note %d' % j) for j, k in enumerate(idx)]
+    h.inputs_struct = {'entries': [[k, 'note %d' % j] for j, k in enumerate(idx)], 'existing': [['none', 'flat', 'fanout'][l] for l in layout]}
+    ev = VecV([tup(pystring(a), pystring(b)) for a, b in entries])
+    repo = Agg('git::repository::Repository', [])
+    try:
+        r = P.call_named('git::refs::notes_add_batch', [Ref(Cell(repo)), SliceRef(ev, 0, n)])
+    except Panic as e:
+        h.panic('K3-no-panic', e.msg)
+        return
+    h.require(r.var == 'Ok', 'K3-batch-ok', 'notes_add_batch failed on a healthy repository')
+    if r.var != 'Ok':
+        return
+    st = P.state['c05_notes']
+    h.require(st['applied'] == (1 if n else 0), 'K3-one-transaction', '%d fast-import runs for one batch' % st['applied'])
+    final = st['tree']
+    last = {}
+    for a, b in entries:
+        last[a] = b.encode('utf-8')
+    for s_ in SHAS:
+        paths = [p for p in final if p.replace('/', '') == s_]
+        if s_ in last:
+            h.require(len(paths) == 1, 'K3-exactly-one-note-per-commit',
+                      'commit %s has %d note paths after the batch: %r (existing layout %s)' % (s_[:4], len(paths), paths, ['none', 'flat', 'fanout'][layout[SHAS.index(s_)]]))
+            if len(paths) == 1:
+                h.require(final[paths[0]] == last[s_], 'K3-note-is-the-last-entry-for-the-commit', 'note text of %s is not the last entry given for it' % s_[:4])
+        else:
+            want = {p: v for p, v in tree.items() if p.replace('/', '') == s_}
+            h.require({p: final[p] for p in paths} == want, 'K3-other-notes-untouched', 'the note of a commit outside the batch changed')
+    h.sample = h.witness()
+
+
+OBLIGATIONS = {'ranges': ob_ranges, 'upsert': ob_upsert, 'state': ob_state, 'compress': ob_compress, 'notes_batch': ob_notes_batch}
 
 
 def replay(v, native):
+    if 'existing' in v['inputs']:
+        inp = v['inputs']
+        r = native('c05_notes_batch', inp)
+        if 'panic' in r:
+            return {'reproduced': v['kind'] == 'panic', 'native': r}
+        if v['kind'] == 'panic':
+            return {'reproduced': False, 'native': r}
+        last = {}
+        for k, text in inp['entries']:
+            last[k] = text
+        bad = {'K3-batch-ok': not r.get('ok'), 'K3-exactly-one-note-per-commit': False, 'K3-note-is-the-last-entry-for-the-commit': False, 'K3-other-notes-untouched': False}
+        for i, c in enumerate(r.get('commits', [])):
+            if i in last:
+                if len(c['paths']) != 1:
+                    bad['K3-exactly-one-note-per-commit'] = True
+                elif c['texts'][0] != last[i]:
+                    bad['K3-note-is-the-last-entry-for-the-commit'] = True
+            else:
+                want = [] if inp['existing'][i] == 'none' else ['old-%d' % i]
+                if c['texts'] != want:
+                    bad['K3-other-notes-untouched'] = True
+        return {'reproduced': bool(bad.get(v['obligation'])), 'native': r}
     inp = v['inputs']
     ob = v['obligation']
     if 'compress' in ob:
@@ -287,3 +421,38 @@ def replay(v, native):
     if v['kind'] == 'panic':
         return {'reproduced': False, 'native': r}
     return {'reproduced': any(ob.endswith(x) or ob == x for x in r.get('failed', [])), 'native': r}
+
+
+def install(M):
+    _install_notes(M)
+
+
+def _install_notes(M):
+    def global_args(P, c, args, dt):
+        return VecV([])
+
+    def exec_git(P, c, args, dt):
+        st = P.state.get('c05_notes')
+        if st is None:
+            raise Unsupported('exec_git without a harness answer')
+        argv = [bytes(concrete_bytes(as_bytes(a)) or b'?').decode() for a in elems_of(args[0])]
+        if 'rev-parse' in argv:
+            if st['has_tip']:
+                return ok(Agg('std::process::Output', [Opaque('ExitStatus', 0), VecV([Sc(b, 8) for b in b'1234567890123456789012345678901234567890\n']), VecV([])]))
+            return err(mk_enum(P.M, 'error::GitAiError', 'GitCliError', some(Sc(128, 32, True)), pystring('fatal: Needed a single revision'), VecV([])))
+        raise Unsupported('exec_git %r' % argv)
+
+    def exec_git_stdin(P, c, args, dt):
+        st = P.state.get('c05_notes')
+        argv = [bytes(concrete_bytes(as_bytes(a)) or b'?').decode() for a in elems_of(args[0])]
+        if st is None or 'fast-import' not in argv:
+            raise Unsupported('exec_git_stdin %r' % argv)
+        raw = [(b.v if isinstance(b, Sc) and b.concrete else b) for b in elems_of(args[1])]
+        if concrete_bytes(raw) is None:
+            raise Unsupported('symbolic fast-import stream')
+        apply_fast_import(concrete_bytes(raw), st['tree'])
+        st['applied'] += 1
+        return ok(Agg('std::process::Output', [Opaque('ExitStatus', 0), VecV([]), VecV([])]))
+    M.env['git::repository::Repository::global_args_for_exec'] = global_args
+    M.env['git::repository::exec_git'] = exec_git
+    M.env['git::repository::exec_git_stdin'] = exec_git_stdin
